@@ -226,6 +226,23 @@ def enabled(ms, universe, allow_cycles=False):
         elif k == "unregid":
             if not any(t[0] in "FK" and t[1] == op[1] for t in ms.tasks):
                 continue
+        elif k == "load":
+            ok = True
+            tmp = ms
+            for path, term in op[1]:
+                if any(T.overlap(path, w) for w in fk):
+                    ok = False
+                    break
+                if ("E", path) in tmp.tasks and not op[2]:
+                    continue
+                if not allow_cycles and not tmp.p_acyclic_with(path, term):
+                    ok = False
+                    break
+                tmp = tmp.clone()
+                tmp.tasks.pop(("E", path), None)
+                tmp.tasks[("E", path)] = RM.expr_task(path, term)
+            if not ok:
+                continue
         res.append(i)
     return res
 
@@ -396,6 +413,12 @@ class Verdict:
 
 def judge(w, ms_pre, op, ns, ex, exc):
     """Compare one executed transition with the model's prescription."""
+    if ex.raises and ex.raises.endswith("?"):
+        if exc is not None and type(exc).__name__ != ex.raises[:-1]:
+            return Verdict("violation", f"expected {ex.raises[:-1]} or success, got {type(exc).__name__}")
+        if not T.same(w.contents(), ns.vals["s"]):
+            return Verdict("violation", "operation changed the data")
+        return Verdict("ok")
     if ex.raises:
         if exc is None or type(exc).__name__ != ex.raises:
             return Verdict("violation", f"expected {ex.raises}, got {type(exc).__name__ if exc else 'no exception'}")
@@ -442,6 +465,10 @@ class ManagerSystem:
 
     prop = "C00"
     allow_cycles = False
+    # Transitions whose outcome is under-determined by the recorded
+    # sibling-cycle finding are always pruned (the real state has left the
+    # model); only the properties the finding belongs to report it.
+    report_known = False
 
     def __init__(self, world, cfg, config_info=None):
         self.world = world
@@ -524,7 +551,9 @@ class ManagerSystem:
                 leaves += 1
                 continue
             if v.kind == "known":
-                issues.append(self.issue("known", hist, op, v.what, v.detail, finding=v.what))
+                if self.report_known:
+                    issues.append(self.issue("known", hist, op, v.what, v.detail, finding=v.what))
+                stats["pruned_order_underdetermined"] = stats.get("pruned_order_underdetermined", 0) + 1
                 leaves += 1
                 continue
             issues.extend(self.transition_checks(w, ms, op, ns, ex, hist))
